@@ -45,9 +45,14 @@ Classes(width) ==
 
 \* fields the code adds together: the second is driven to make the sum wrap
 SumPairs == { <<"icc", "tag_off_desc", "tag_size_desc">>, <<"icc", "tag_off_other", "tag_size_other">>,
-              <<"icc", "mluc_off", "mluc_len">>, <<"icc", "tag_count", "tag_off_desc">> }
+              <<"icc", "mluc_off", "mluc_len">>, <<"icc", "tag_count", "tag_off_desc">>,
+              \* an outer declared size paired with an inner one (validating one untrusted number against
+              \* another proves nothing about the input's real length)
+              <<"webp", "riff_size", "len_ICCP">>, <<"icc", "profile_size", "tag_size_desc">>,
+              <<"icc", "profile_size", "tag_off_desc">>, <<"webp", "riff_size", "len_VP8X">> }
 PairClasses == { <<a, b>> : a \in { <<"max", 0>>, <<"max", -15>>, <<"half", 0>>, <<"v", 0>> },
-                            b \in { <<"wrap_a", 0>>, <<"wrap_a", 1>>, <<"wrap_a", 16>>, <<"max", 0>> } }
+                            b \in { <<"wrap_a", 0>>, <<"wrap_a", 1>>, <<"wrap_a", 16>>, <<"max", 0>>,
+                                    <<"half", 0>>, <<"const", 268435456>> } }      \* large, but smaller than the outer number
 
 \* a count that drives a loop, paired with the size that drives its step: the work
 \* done must follow the input length, not the product of the two declared numbers
